@@ -1,3 +1,4 @@
 //! Tape decoders (generators).
 pub mod prog;
 pub mod link;
+pub mod exec;
